@@ -8,7 +8,7 @@
 //   run  <kind mep|team|ga|de> <strat std|alps|de|dealps> <mode step|whole|search> <seed>
 //        <individuals> <min_individuals> <layers> <tournament> <mate_zone> <elitism 0|1>
 //        <age_gap> <p_same> <p_cross> <p_mutation> <brood> <generations> <cache 0|1>
-//        <eval h|v|r|n> <evalmod> <shake_every> [<max_stuck_time> [<shake at generation 0: 0|1>]]
+//        <eval h|v|r|n> <evalmod> <shake_every> [<max_stuck_time> [<shake at generation 0: 0|1> [<further run() calls on the SAME evolution object (whole mode)>]]]
 //   mode sel: an ALPS population with <layers> layers of UNEQUAL sizes (real add_layer / set_allowed /
 //        pop_from_layer), then <generations> * 50 calls of selection.run() from that fixed state
 //   tune <class search|ga|de|src> <strat std|alps|de> <validator asis|holdout|dss> <rows>
@@ -230,7 +230,7 @@ struct config
   unsigned brood, generations;
   int cache;
   char eval;
-  unsigned evalmod, shake_every, max_stuck, shake0;
+  unsigned evalmod, shake_every, max_stuck, shake0, reruns;
 
   // does the user's shake function change the data before generation `g`?
   bool shakes(unsigned g) const
@@ -636,6 +636,13 @@ void run_whole(const config &c, bool traced)
                return false;
              });
   evo.run(1, shake);
+  // a history of runs on the same object: every run() starts from a clean summary
+  for (unsigned r(0); r < c.reruns; ++r)
+  {
+    g_ctx = trace_ctx();
+    g_out << " RERUN " << show_pop(evo.pop_, eva);
+    evo.run(2 + r, shake);
+  }
   g_out << " END";
 }
 
@@ -795,6 +802,7 @@ config parse_run(const std::vector<std::string> &w)
   c.max_stuck = i < w.size() ? static_cast<unsigned>(std::stoul(w.at(i++)))
                              : std::numeric_limits<unsigned>::max();
   c.shake0 = i < w.size() ? static_cast<unsigned>(std::stoul(w.at(i++))) : 0;
+  c.reruns = i < w.size() ? static_cast<unsigned>(std::stoul(w.at(i++))) : 0;
   return c;
 }
 
